@@ -75,8 +75,17 @@ pub fn mul(a: &BigUint, b: &BigUint, p: &BigUint) -> BigUint {
 pub fn pow(a: &BigUint, e: &BigUint, p: &BigUint) -> BigUint {
     a.modpow(e, p)
 }
-/// Inverse by Fermat (p prime); inverse of 0 is 0.
+/// Inverse modulo a prime p; inverse of 0 is 0. Uses the extended Euclidean algorithm of num-bigint
+/// (`inv_fermat` is the definitional version, cross-checked against this one by the self test).
 pub fn inv(a: &BigUint, p: &BigUint) -> BigUint {
+    let a = a % p;
+    if a.is_zero() {
+        return BigUint::zero();
+    }
+    a.modinv(p).expect("modulus must be prime")
+}
+/// Inverse by Fermat (p prime); inverse of 0 is 0.
+pub fn inv_fermat(a: &BigUint, p: &BigUint) -> BigUint {
     a.modpow(&(p - 2u32), p)
 }
 /// Modular inverse by extended Euclid (any modulus); None when not invertible.
